@@ -3,7 +3,8 @@
 (* of the equations the property states, over the menu below.               *)
 EXTENDS RecordMachine
 
-CONSTANT Depth, MaxNF
+CONSTANT Depth, MaxNF,
+         WithSub     \* TRUE: the menu includes $k += d, sub/gsub on a field and getline $k
 
 Texts == { <<>>, <<c_a>>, <<c_a, SP, c_b>>, <<SP, c_a, SP, SP, c_b, SP>>, <<c_a, COMMA, c_b>>, <<COMMA, c_a, COMMA>>,
            <<c_a, COLON, c_b, COMMA, D1>>, <<c_a, TAB, c_b, LF, D1>>, <<c_a, c_a, c_b, c_a, c_b, c_b>>, <<D1, SP, D2>> }
@@ -26,6 +27,12 @@ Menu ==
   \cup {[op |-> "getf", k |-> k1] : k1 \in Idx \ {MaxField + 1}}
   \cup {[op |-> "getnf"]}
   \cup {[op |-> "incr", k |-> k1] : k1 \in {1, 2, 0 - 1, 0 - 4}}
+  \cup (IF WithSub THEN
+          {[op |-> "augf", k |-> 2, d |-> 2]}
+     \cup {[op |-> "subf", k |-> k1, gl |-> g1, re |-> r1, rp |-> p1] : k1 \in {0, 2, 4, 0 - 1}, g1 \in BOOLEAN,
+                                                             r1 \in {Lit(c_b), Star(Lit(c_x)), Lit(COMMA)}, p1 \in {<<AMP>>, <<c_q>>, <<>>}}
+     \cup {[op |-> "getlinef", k |-> k1, s |-> s1] : k1 \in {0, 2, 4, 0 - 1}, s1 \in {<<c_x, SP, c_x>>, <<>>}}
+        ELSE {})
 
 VARIABLES rec, lz, steps, lastA, lastL
 vars == <<rec, lz, steps, lastA, lastL>>
@@ -55,5 +62,13 @@ SplitLaws ==
   /\ \A ch \in {COMMA, COLON} : rec.line # <<>> => Join(SplitLit(rec.line, <<ch>>), <<ch>>) = rec.line
 \* reads change nothing; assignments rebuild $0 from the fields
 ReadsAreSilent == [][\A act \in Menu : (act.op \in {"getf", "getnf"} /\ Step(act)) => rec' = rec]_vars
+\* after any assignment to a field (also a successful sub/gsub or getline into it) $0 is the fields joined
+AssignRebuilds == [][\A act \in Menu :
+                      (act.op \in {"setf", "incr", "augf", "getlinef"} /\ act.k # 0 /\ act.k <= MaxField /\ ~NegOutOfRange(rec, act) /\ Step(act))
+                        => rec'.line = JoinOut(rec'.fields, rec'.ofs, rec'.omode)]_vars
+SubAssigns == [][\A act \in Menu :
+                      (act.op = "subf" /\ act.k # 0 /\ ~NegOutOfRange(rec, act) /\ Step(act))
+                        => IF Substitute(act.re, act.rp, RecGet(rec, act.k), act.gl)[2] = 0 THEN rec' = rec
+                           ELSE rec'.line = JoinOut(rec'.fields, rec'.ofs, rec'.omode)]_vars
 View == <<rec, lz, lastA, lastL>>
 =============================================================================
